@@ -1,7 +1,7 @@
 (* C13 - property theorems.  Statements, [exact], [Print Assumptions]; nothing else.
    Model: Model/C13_Signal.v on top of Model/C01_LiveSet.v (effect list of one iteration of the
    standard sampler, interruption before effect k, resume from the loop top).                  *)
-From Coq Require Import ZArith List Bool.
+From Coq Require Import String ZArith List Bool.
 From NessaiV Require Import Lib.Effects Model.C01_LiveSet Proofs.C01_LiveSet_proofs
                             Model.C13_Signal Proofs.C13_Signal_proofs.
 Import ListNotations.
@@ -120,6 +120,23 @@ Theorem C13_reseed_on_resume_refuted :
   /\ nodupb (rs_live_after false) = true.
 Proof. exact reseed_refuted. Qed.
 Print Assumptions C13_reseed_on_resume_refuted.
+
+(* a signal inside the proposal's draw / populate path: the resumed run re-enters populate without
+   retraining, so what populate reads must survive.  For EVERY regenerated triple (attributes
+   __getstate__ drops, attributes the path reads, attributes resume restores / populate re-derives)
+   accepted by the checker, every attribute the path reads that was available before the signal is
+   available after pickle + resume.  Refuted for a dropped, read, unrestored attribute.            *)
+Theorem C13_proposal_fields_survive : forall dropped read restored : list string,
+  fields_ok dropped read restored = true ->
+  forall (st : fstore) f, In f read -> st f = true -> pickle_resume dropped restored st f = true.
+Proof. exact fields_sound. Qed.
+Print Assumptions C13_proposal_fields_survive.
+
+Theorem C13_dropped_field_refuted :
+  fields_ok ["training_data"%string] ["training_data"%string] [] = false
+  /\ pickle_resume ["training_data"%string] [] (fun _ => true) "training_data"%string = false.
+Proof. exact fields_refuted. Qed.
+Print Assumptions C13_dropped_field_refuted.
 
 (* importance sampler: a forced (non-periodic) checkpoint returns before any file operation, so the
    last iteration-boundary checkpoint is left intact - for every statement list whose first
